@@ -527,6 +527,11 @@ class Ctx:
             cov['distinct_nontrivial'], len(self.violations), time.time() - self.t0))
         return 1 if self.violations else 0
 
+    def is_known(self, signature):
+        """True iff known_findings.json lists this exact signature as an open finding of this property."""
+        return any(f.get('property') == self.prop and f.get('status') == 'open' and f.get('signature') == signature
+                   for f in self._findings)
+
     def known_hits_cover_broken(self):
         """A broken obligation is excused only when every broken item was
         explicitly tied to a known finding by the property module."""
